@@ -545,6 +545,57 @@ class Tr:
             c, th = ins[0], ins[1]
             el = ins[2] if len(ins) > 2 else None
             g, tc = self.cond(c)
+            js = json.dumps(s)
+            if rest and '"ReturnStmt"' not in js and '"BreakStmt"' not in js and '"SwitchStmt"' not in js:
+                # no branch leaves the function: join the branches on the outer variables they assign,
+                # so that the code after the `if` is emitted once
+                outer = set(self.locals)
+                assigned = []
+                for m in re.finditer(r'"kind": "(?:BinaryOperator|CompoundAssignOperator|UnaryOperator)".*?"referencedDecl": \{[^}]*?"name": "(\w+)"', js):
+                    pass
+                def collect(n):
+                    k = n.get("kind")
+                    if k in ("BinaryOperator", "CompoundAssignOperator") and n.get("opcode", "").endswith("=") and n["opcode"] not in ("==", "!=", "<=", ">="):
+                        lhs = inner(n)[0]
+                        while lhs.get("kind") in ("ParenExpr",):
+                            lhs = inner(lhs)[0]
+                        if lhs.get("kind") == "DeclRefExpr":
+                            nm = lhs["referencedDecl"]["name"]
+                        else:
+                            try:
+                                nm = self.lvalue_key(lhs)[0]
+                            except Untranslatable:
+                                nm = None
+                        if nm in outer and nm not in assigned:
+                            assigned.append(nm)
+                    if k == "UnaryOperator" and n.get("opcode") in ("++", "--"):
+                        t = inner(n)[0]
+                        if t.get("kind") == "DeclRefExpr" and t["referencedDecl"]["name"] in outer and t["referencedDecl"]["name"] not in assigned:
+                            assigned.append(t["referencedDecl"]["name"])
+                    if k == "CallExpr":
+                        nm = self.callee(n)
+                        if nm in self.known and self.known[nm][1] == "store" and len(inner(n)) > 1:
+                            f0 = inner(n)[1]
+                            while f0.get("kind") in ("ImplicitCastExpr", "ParenExpr"):
+                                f0 = inner(f0)[0]
+                            if f0.get("kind") == "DeclRefExpr" and f0["referencedDecl"]["name"] in outer and f0["referencedDecl"]["name"] not in assigned:
+                                assigned.append(f0["referencedDecl"]["name"])
+                    for ch in inner(n):
+                        collect(ch)
+                collect(th)
+                if el is not None:
+                    collect(el)
+                tup = "(" + ", ".join(gname(v) for v in assigned) + ")" if len(assigned) != 1 else gname(assigned[0])
+                if not assigned:
+                    tup = "tt"
+                kk = lambda: "Some %s" % tup  # noqa: E731
+                saved = set(self.locals)
+                a = self.stmts([th], kk)
+                self.locals = set(saved)
+                b = self.stmts([el], kk) if el is not None else kk()
+                self.locals = set(saved)
+                pat = tup if assigned else "_"
+                return self.guarded(g, "do %s <- (if %s\nthen (%s)\nelse (%s));\n%s" % (pat, tc, a, b, nxt()))
             a = self.stmts([th], nxt)
             b = self.stmts([el], nxt) if el is not None else nxt()
             return self.guarded(g, "if %s\nthen (%s)\nelse (%s)" % (tc, a, b))
